@@ -107,7 +107,7 @@ Proof. intros c a b Hc H. subst c. exact H. Qed.
 
 Ltac split_and H := repeat (apply andb_true_iff in H; destruct H as [H ?]).
 
-Lemma osm_block : forall n' d vs,
+Lemma osm_block_ext : forall n' d vs,
   (n' <= FUEL)%nat ->
   osm_static n' d = true ->
   fields_all (wf sch n') (zero_like sch n') (struct_fields d) vs = true ->
@@ -117,7 +117,9 @@ Lemma osm_block : forall n' d vs,
     /\ (header_empty d (VStruct vs) = true -> al = [])
     /\ (forall m0 bs N t, (n' <= m0)%nat ->
           fields_all (zero_like sch n') (zero_like sch n') (struct_fields d) bs = true ->
-          unmarshal_struct sch (unmarshal sch FUEL m0) d (VStruct bs) (Elem N al kids t) = Ok (VStruct vs)).
+          unmarshal_struct sch (unmarshal sch FUEL m0) d (VStruct bs) (Elem N al kids t) = Ok (VStruct vs))
+    /\ marshal_attrs sch (struct_fields d) vs = Ok al
+    /\ (forall m0, (n' <= m0)%nat -> marshal_children sch (marshal sch m0) (struct_fields d) vs = Ok kids).
 Proof.
   intros n' d vs Hn Hst Hwf. unfold osm_static in Hst.
   apply andb_true_iff in Hst. destruct Hst as [Hst Hshape]. apply andb_true_iff in Hst. destruct Hst as [Hxn Hfc].
@@ -169,7 +171,7 @@ Proof.
   rewrite HA in Hal. inversion Hal; subst al. clear Hal.
   exists (opt_attr "version" s ++ opt_attr "generator" s0 ++ opt_attr "copyright" s1
           ++ opt_attr "attribution" s2 ++ opt_attr "license" s3 ++ []), (List.concat ess).
-  split; [|split; [|split]].
+  split; [|split; [|split; [|split; [|split]]]].
   - unfold header_attrs.
     rewrite (str_attr_opt d _ "Version" "version" f1 s), (str_attr_opt d _ "Generator" "generator" f2 s0),
             (str_attr_opt d _ "Copyright" "copyright" f3 s1), (str_attr_opt d _ "Attribution" "attribution" f4 s2),
@@ -194,6 +196,51 @@ Proof.
     destruct s; [|discriminate]. destruct s0; [|discriminate]. destruct s1; [|discriminate].
     destruct s2; [|discriminate]. destruct s3; [|discriminate]. reflexivity.
   - intros m0 bs N t Hm0 Hz. apply Hdec; [exact Hm0 | | exact Hz]. rewrite Hxn. reflexivity.
+  - exact HA.
+  - intros m0 Hm0. exact (Hkids m0 Hm0).
+Qed.
+
+
+Lemma osm_block : forall n' d vs,
+  (n' <= FUEL)%nat ->
+  osm_static n' d = true ->
+  fields_all (wf sch n') (zero_like sch n') (struct_fields d) vs = true ->
+  exists al kids,
+    header_attrs d (VStruct vs) = Ok al
+    /\ (forall m0, (n' <= m0)%nat -> osm_inner (marshal sch m0) d (VStruct vs) = Ok kids)
+    /\ (header_empty d (VStruct vs) = true -> al = [])
+    /\ (forall m0 bs N t, (n' <= m0)%nat ->
+          fields_all (zero_like sch n') (zero_like sch n') (struct_fields d) bs = true ->
+          unmarshal_struct sch (unmarshal sch FUEL m0) d (VStruct bs) (Elem N al kids t) = Ok (VStruct vs)).
+Proof.
+  intros n' d vs Hn Hst Hwf. destruct (osm_block_ext n' d vs Hn Hst Hwf) as [al [kids [H1 [H2 [H3 [H4 _]]]]]].
+  exists al, kids. repeat split; assumption.
+Qed.
+
+(* any interleaving of the objects of a block: the children may come in any order that keeps the
+   order within each kind (node/way/node, objects before bounds, ...), and elements that are none
+   of the block's children may be added anywhere *)
+Lemma osm_block_any : forall n' d vs,
+  (n' <= FUEL)%nat ->
+  osm_static n' d = true ->
+  fields_all (wf sch n') (zero_like sch n') (struct_fields d) vs = true ->
+  exists al kids,
+    header_attrs d (VStruct vs) = Ok al
+    /\ (forall m0, (n' <= m0)%nat -> osm_inner (marshal sch m0) d (VStruct vs) = Ok kids)
+    /\ (forall m0 bs N t kids', (n' <= m0)%nat ->
+          fields_all (zero_like sch n') (zero_like sch n') (struct_fields d) bs = true ->
+          same_per_field sch (struct_fields d) kids kids' ->
+          unmarshal_struct sch (unmarshal sch FUEL m0) d (VStruct bs) (Elem N al kids' t) = Ok (VStruct vs)).
+Proof.
+  intros n' d vs Hn Hst Hwf. destruct (osm_block_ext n' d vs Hn Hst Hwf) as [al [kids [H1 [H2 [_ [_ [HA HK]]]]]]].
+  pose proof Hst as Hst0. unfold osm_static in Hst0.
+  apply andb_true_iff in Hst0. destruct Hst0 as [Hst0 _]. apply andb_true_iff in Hst0. destruct Hst0 as [Hxn Hfc].
+  destruct (struct_rt_parts_any sch n' (RT_all sch n' Hn) d vs Hfc Hwf) as [al2 [ess [HA2 [HK2 Hdec]]]].
+  rewrite HA in HA2. inversion HA2; subst al2.
+  pose proof (HK n' (le_n _)) as E1. pose proof (HK2 n' (le_n _)) as E2. rewrite E1 in E2. inversion E2 as [Ek].
+  exists al, kids. split; [exact H1 | split; [exact H2|]].
+  intros m0 bs N t kids' Hm0 Hz Hsame. apply Hdec; [exact Hm0 | rewrite Hxn; reflexivity | exact Hz|].
+  rewrite <- Ek. exact Hsame.
 Qed.
 
 End Block.
